@@ -1113,7 +1113,7 @@ End Bytes.
 
 
 (* ---------------------------------------------------------------- the two former classes *)
-(* Before the fixes cd7192e / 96161d9 these two lists were re-written to
+(* Before the fixes 84ca472 / e44bc72 these two lists were re-written to
    different cells (a memo with surrounding white space; a split of the
    default affiliate in a list naming no other affiliate).  They are instances
    of table_idempotent now. *)
